@@ -189,7 +189,12 @@ fn want(ctor: &str, x: &CelValue) -> Want {
         ("duration", Int(_)) | ("duration", String(_)) => Want::Open,
         ("duration", _) => Want::Error,
 
-        ("type", _) => Want::Open,
+        // type(x) names the variant of x - in particular type(type(..)) is `type`, whatever the inner type is
+        ("type", v) => match mon::vtype(v) {
+            "double" => Want::Exact(CelValue::from_type("float")),
+            t @ ("int" | "uint" | "bool" | "string" | "bytes" | "list" | "map" | "null" | "type" | "timestamp" | "duration") => Want::Exact(CelValue::from_type(t)),
+            _ => Want::Open,
+        },
         _ => Want::Open,
     }
 }
